@@ -61,6 +61,21 @@ func backendPolicy(b BK, inlineTrait bool) pw.Policy {
 						return false
 					}
 				}
+				// what the sync.Map holds are non-nil *TraitEntry values (every store site stores one: R07.5, R13.1): a checked
+				// type assertion of a loaded value succeeds and yields a non-nil entry
+				if ev.Kind == pw.EvAssign && ev.Value != nil && ev.Value.Kind == pw.KMapOk && ev.Value.Src != nil && ev.Value.Src.Kind == pw.KAssert {
+					as := ev.Value.Src
+					if src := as.Src; src != nil && src.Kind == pw.KCall && src.Ev != nil && (src.Ev.Role == "Std:sync.Map.Load" || src.Ev.Role == "Std:sync.Map.LoadAndDelete") && src.Idx == 0 {
+						if loaded, lk := f.Truth(src.Ev.Results[1]); lk && loaded {
+							if t, known := f.Truth(ev.Value); known && !t {
+								return false
+							}
+							if n, known := f.Nil(as); known && n {
+								return false
+							}
+						}
+					}
+				}
 			}
 			return true
 		},
